@@ -150,6 +150,8 @@ type vc08Call struct {
 	put    int    // fail the put-th Put of the write transaction (0 = none)
 	puts   int    // Puts seen so far
 	shelf  string // shelf of the failed Put (for the statistics)
+	// run once after the call's next read transaction (the read phase of Add) has finished
+	afterRead func()
 }
 
 var errVc08Put = errors.New("verif: injected store fault (Put)")
@@ -750,7 +752,7 @@ func (r *vc08Run) register(ops []*vc08Op, from int) {
 		}
 	}
 	for i := from + 1; i < len(ops) && ops[i].Op != "new"; i++ {
-		if ops[i].Op == "add" || ops[i].Op == "checkRace" {
+		if ops[i].Op == "add" || ops[i].Op == "dupadd" || ops[i].Op == "checkRace" {
 			reg(ops[i])
 		}
 		for _, a := range ops[i].adds {
@@ -823,6 +825,10 @@ func (r *vc08Run) exec(op *vc08Op) {
 			r.open()
 		case "add":
 			tag = r.doAdd(op, 0)
+			r.fillTx(op)
+			r.stats["add:"+tag]++
+		case "dupadd":
+			tag = r.doDupAdd(op)
 			r.fillTx(op)
 			r.stats["add:"+tag]++
 		case "batch":
